@@ -592,6 +592,61 @@ def stress(ctx, spec, ops, base, rng, T, rounds, per_thread, p_yield):
     ctx.max("stress_distinct_switch_sites", len(st.switch_sites))
 
 
+def cold_start(ctx, spec, sel, base, rng, p_yield):
+    """every round builds a fresh world (fresh keys, key sets and registries) and lets 2-4 threads make the *first* use of the same
+    objects at the same moment under yield injection: lazily built views, indexes and caches are initialised under contention"""
+    st = Stress(ctx.seed * 1000 + 500 + ctx.shard, p_yield).start()
+
+    def share(a, b):
+        return bool({n.replace(".pub", "") for n in keys_needed(a)} & {n.replace(".pub", "") for n in keys_needed(b)})
+    try:
+        r = 0
+        while not ctx.out_of_time():
+            r += 1
+            oa = rng.choice(sel)
+            partners = [o for o in sel if share(oa, o)]
+            ob = oa if rng.random() < 0.5 or not partners else rng.choice(partners)
+            T = rng.choice([2, 2, 3, 4])
+            plan = [oa, ob, oa, ob][:T]
+            need = keys_needed(oa) | keys_needed(ob)
+            w = World(spec, need)
+            before = world_state(w, True)
+            results = [None] * T
+            gate = threading.Barrier(T)
+
+            def worker(i):
+                try:
+                    gate.wait(timeout=60)
+                except threading.BrokenBarrierError:
+                    pass
+                results[i] = exec_op(w, plan[i])
+
+            th = [threading.Thread(target=worker, args=(i,), daemon=True) for i in range(T)]
+            for x in th:
+                x.start()
+            for x in th:
+                x.join(timeout=120)
+            if any(x.is_alive() for x in th):
+                ctx.count("cold_rounds_stuck")
+                ctx.note("a cold-start round did not finish within 120 s (inconclusive, not a verdict)")
+                return
+            due = set()
+            case = {"mode": "cold-start", "threads": T, "ops": [oa, ob], "p_yield": p_yield}
+            for o, out in zip(plan, results):
+                ctx.nontrivial(("cold", r, canon(o)))
+                check_outcome(ctx, "cold-start", o, out, base, case)
+                due |= kid_assigned_by(o, out)
+            compare_state(ctx, w, before, f"after {T} threads made the first use of fresh shared objects", case, True, due)
+            check_unique(ctx, w, "cold-start", case)
+            ctx.count("cold_start_rounds")
+            ctx.cell("cold-start", oa["k"], ob["k"])
+    finally:
+        st.stop()
+    ctx.count("cold_line_events", st.line_events)
+    ctx.count("cold_forced_yields", st.yields)
+    ctx.count("cold_thread_switches_observed", st.switches)
+
+
 # (c) systematic
 
 
@@ -669,9 +724,12 @@ def run_shard(ctx):
     ctx.budget_s = ctx.elapsed() + 0.2 * total
     T = [2, 4, 8, 16, 32][sh % 5]
     stress(ctx, spec, ops, base, rng, T, rounds=1000, per_thread=max(2, (48 if quick else 400) // T), p_yield=[0.05, 0.2, 0.5][sh % 3])
+    # (b') first use of fresh shared objects by several threads at once; 20 % of the budget
+    sel = state_touching(ops)
+    ctx.budget_s = ctx.elapsed() + 0.2 * total
+    cold_start(ctx, spec, sel, base, rng, [0.1, 0.3, 0.6][sh % 3])
     ctx.budget_s = total
     # (c)
-    sel = state_touching(ops)
     pairs = []
     for a in range(len(sel)):
         for b in range(a, len(sel)):
@@ -719,6 +777,11 @@ def replay(ctx, case):
                 check_outcome(ctx, "schedule", ob, outs[1], base, case)
         finally:
             sysm.close()
+    elif case.get("mode") == "cold-start":
+        sel = [o for o in case["ops"]]
+        base = {canon(o): outcome_class(exec_op(World(spec), o)) for o in sel}
+        ctx.budget_s = ctx.elapsed() + 20
+        cold_start(ctx, spec, sel, base, ctx.rng, case.get("p_yield", 0.3))
     else:
         base = isolation_baseline(ctx, spec, ops)
         sequential(ctx, spec, ops, base, ctx.rng, 3, 300)
